@@ -773,6 +773,15 @@ func c17Crash(r *mon.Result, p *c17Proc, phase string, suspects []string, why st
 	if loc := panicRe.FindStringIndex(s); loc != nil {
 		k, t, e := crashInfoText(s[loc[0]:])
 		kind, top, excerpt = k, t, e
+	} else if i := strings.Index(s, "pthread_create failed: Resource temporarily unavailable"); i >= 0 {
+		// the runtime could not create a thread and aborted (SIGABRT, no "fatal error:" line): under the address-space cap
+		// this is how memory exhaustion by announced-but-never-sent lengths ends when a thread stack is the allocation
+		// that no longer fits - the same finding as "fatal error: out of memory"
+		kind, top = "fatal", "out-of-memory"
+		excerpt = s[i:]
+		if len(excerpt) > 1500 {
+			excerpt = excerpt[:1500]
+		}
 	} else if len(s) > 1500 {
 		excerpt = s[len(s)-1500:]
 	} else {
